@@ -38,7 +38,9 @@ def run(c):
 
     c.build_theories()
     c.require_theories("Ast/*.v", "Engine/Dispatch.v")
-    inst_ok = walkerlib.prepare(c, ["C01/Inst_Dispatch.v", "C01/C01.v"])
+    inst_ok = False
+    if walkerlib.go2coq(c, "walktables", "Gen_WalkTables.v"):
+        inst_ok = walkerlib.prepare(c, [], extra_gen=["Gen_WalkTables.v"], extra_tmpl=["C01/Inst_Dispatch.v", "C01/C01.v"])
 
     hb = c.build_harness("walker")
     if hb is None:
